@@ -359,7 +359,8 @@ def child_to_path(child_number):
 
 def path_network(root_path):
     components = root_path.split("/")
-    if len(components) < 2:
+    # "m/44'" has no coin type component
+    if len(components) < 3:
         return "mainnet"
     elif components[1] in ("44'", "84'", "48'") and components[2] == "1'":
         return "testnet"
